@@ -129,11 +129,11 @@ type subsc struct {
 	// the client's token resolves to the partial-visibility authorizer
 	restricted bool
 	s          *sched
-	mat   *submatview.LocalMaterializer
-	gv    *gatedView
-	ctx   context.Context
-	stop  context.CancelFunc
-	done  chan struct{}
+	mat        *submatview.LocalMaterializer
+	gv         *gatedView
+	ctx        context.Context
+	stop       context.CancelFunc
+	done       chan struct{}
 
 	// written by the materializer goroutine under s.mu
 	subsDone []subInfo
@@ -154,7 +154,9 @@ type subsc struct {
 	resumedAcross bool
 	caseVariant   string // health views: an update named an instance whose key differs from a key in the view only by the case of the node name
 	snapSubNo     int    // ordinal of the subscription that delivered the client's latest snapshot
-	nonTypical    string // service list: an update received since the last snapshot that no change of the typical-kind names accounts for
+	snapCommit    uint64 // last commit when that subscription was opened: deliveries up to it replay what the snapshot may already contain
+	snapEpoch     int
+	nonTypical    string          // service list: an update received since the last snapshot that no change of the typical-kind names accounts for
 	nonTypNames   map[string]bool // ... and the names such updates carried
 	// obligations to have left the subscription that was open when a restore / an ACL change of the
 	// client's token took effect: cause -> number of subscribes the client had done by then
@@ -196,8 +198,8 @@ func (sb *subsc) Subscribe(req *stream.SubscribeRequest) (*stream.Subscription, 
 // ---------------- the scheduler ----------------
 
 type rec struct {
-	epoch   int
-	commit  uint64
+	epoch    int
+	commit   uint64
 	qidx     uint64
 	content  string // canonical answer of the direct query
 	contentR string // the same answer as the restricted token may see it
@@ -566,6 +568,14 @@ func (s *sched) checkDelivery(sb *subsc, dl delivery, canQuery bool) {
 	}
 	s.run.Count("deliveries:" + kind)
 	s.run.Count("deliveries:" + sj.Class)
+	if isMixedSubject(sj) {
+		s.run.Count(sj.Class + "-deliveries-for-mixed-case-subject")
+		s.run.Count(sj.Class + "-deliveries-for-mixed-case-subject:" + kind)
+		if dl.n > 0 {
+			s.run.Count(sj.Class + "-deliveries-for-mixed-case-subject:non-empty")
+		}
+		s.run.Distinct("mixed-case-subject-spelling", sj.Name)
+	}
 	if dl.n >= 2 {
 		s.run.Count("deliveries:multi-event:" + kind)
 		s.run.Count("deliveries:multi-event:" + sj.Class)
@@ -611,6 +621,7 @@ func (s *sched) checkDelivery(sb *subsc, dl delivery, canQuery bool) {
 			// a new snapshot all the same: the client's history restarts here
 			sb.tainted, sb.resumedAcross, sb.nonTypical, sb.caseVariant, sb.nonTypNames = false, false, "", "", nil
 			sb.snapSubNo, sb.haveLast = dl.subNo, false
+			sb.snapCommit, sb.snapEpoch = info.commit, info.epoch
 		}
 		return
 	}
@@ -686,7 +697,7 @@ func (s *sched) checkDelivery(sb *subsc, dl delivery, canQuery bool) {
 		}
 	}
 	if dl.snapshot {
-		sb.snapSubNo = dl.subNo
+		sb.snapSubNo, sb.snapCommit, sb.snapEpoch = dl.subNo, info.commit, epoch
 	}
 	if dl.snapshot {
 		sb.nonTypical, sb.nonTypNames = "", nil
@@ -718,7 +729,8 @@ func (s *sched) checkDelivery(sb *subsc, dl delivery, canQuery bool) {
 		s.run.Count("deliveries:of-multi-batch-commit")
 		return
 	}
-	if !dl.snapshot && dl.subNo == sb.snapSubNo && d <= info.commit {
+	if !dl.snapshot && sb.snapSubNo > 0 && epoch == sb.snapEpoch && d <= sb.snapCommit {
+		// (also on a later subscription that RESUMED the stream by index: it continues the same view)
 		// the batch was committed before this subscription's snapshot was handed out: a replay of (or a
 		// catch-up towards) what the snapshot already contains; the intermediate view is not judged
 		s.run.Count("deliveries:replay-after-snapshot")
@@ -1221,8 +1233,14 @@ func (s *sched) genCommand() gen.Cmd {
 
 // commitNext commits a generated write: mostly from the shared generator, sometimes a focus write
 func (s *sched) commitNext() {
-	if s.rng.Chance(18) {
-		class, desc, data := s.focusCommand()
+	if s.rng.Chance(22) {
+		var class, desc string
+		var data []byte
+		if s.rng.Chance(40) {
+			class, desc, data = s.focusMixed(-1)
+		} else {
+			class, desc, data = s.focusCommand()
+		}
 		s.commit(class, desc, data, nil)
 		return
 	}
@@ -1313,6 +1331,103 @@ func (s *sched) focusCommand() (class, desc string, data []byte) {
 	default:
 		name := core.Pick(r, []string{"api", "db"})
 		return mk("focus:instance", structs.RegisterRequestType, s.focusInstance(node, name, name))
+	}
+}
+
+// focusMixed: writes about the service registered under the mixed-case name Web2: plain and
+// connect-native instances, a sidecar proxy whose destination is Web2, a terminating gateway (config
+// entry tgw2 linking Web2 + gateway instance), their re-registration and deregistration. Node names
+// stay as they are. kind < 0: drawn.
+func (s *sched) focusMixed(kind int) (class, desc string, data []byte) {
+	r := s.rng
+	node := r.Intn(2)
+	n := focusNodes[node]
+	if kind < 0 {
+		kind = r.Intn(10)
+	}
+	mk := func(class string, t structs.MessageType, req any) (string, string, []byte) {
+		return class, class + " " + core.JSON(req), fsmEnc(t, req)
+	}
+	reg := func(class string, ns *structs.NodeService) (string, string, []byte) {
+		ns.Port = 8100 + r.Intn(3)
+		if r.Chance(30) {
+			ns.Tags = []string{core.Pick(r, []string{"v1", "v2"})}
+		}
+		return mk(class, structs.RegisterRequestType, &structs.RegisterRequest{Datacenter: "dc1", Node: n.name, Address: n.addr, ID: n.id, Service: ns})
+	}
+	dereg := func(class, id string) (string, string, []byte) {
+		return mk(class, structs.DeregisterRequestType, &structs.DeregisterRequest{Datacenter: "dc1", Node: n.name, ServiceID: id})
+	}
+	if kind >= 2 {
+		// a change of a proxy / gateway whose destination is the mixed-case service
+		for _, sb := range s.subs {
+			if sb.subj.Class == "connect" && isMixedSubject(sb.subj) && !sb.tainted && sb.delivered > 0 {
+				s.run.Count("proxy-or-gateway-changes-for-mixed-case-destination-with-live-connect-client")
+				s.kinds["mixed-change"] = true
+				break
+			}
+		}
+	}
+	switch kind {
+	case 0:
+		return reg("focus:mixed:instance", &structs.NodeService{ID: mixedSvc + "-a", Service: mixedSvc})
+	case 1:
+		return reg("focus:mixed:native-instance", &structs.NodeService{ID: mixedSvc + "-n", Service: mixedSvc, Connect: structs.ServiceConnect{Native: true}})
+	case 2, 3:
+		return reg("focus:mixed:sidecar", &structs.NodeService{Kind: structs.ServiceKindConnectProxy, ID: mixedSvc + "-sidecar-proxy", Service: mixedSvc + "-sidecar-proxy",
+			Proxy: structs.ConnectProxyConfig{DestinationServiceName: mixedSvc, DestinationServiceID: mixedSvc + "-a"}})
+	case 4:
+		return dereg("focus:mixed:deregister-sidecar", mixedSvc+"-sidecar-proxy")
+	case 5, 6:
+		return reg("focus:mixed:gateway-instance", &structs.NodeService{Kind: structs.ServiceKindTerminatingGateway, ID: "tgw2", Service: "tgw2"})
+	case 7:
+		return dereg("focus:mixed:deregister-gateway-instance", "tgw2")
+	case 8:
+		e := &structs.TerminatingGatewayConfigEntry{Kind: structs.TerminatingGateway, Name: "tgw2", Services: []structs.LinkedService{{Name: mixedSvc}}}
+		if r.Chance(40) {
+			e.Services = append(e.Services, structs.LinkedService{Name: "db", SNI: "sni.example"})
+		}
+		_ = e.Normalize()
+		return mk("focus:mixed:gateway-config", structs.ConfigEntryRequestType, &structs.ConfigEntryRequest{Datacenter: "dc1", Op: structs.ConfigEntryUpsert, Entry: e})
+	default:
+		e := &structs.TerminatingGatewayConfigEntry{Kind: structs.TerminatingGateway, Name: "tgw2"}
+		_ = e.Normalize()
+		return mk("focus:mixed:gateway-config-delete", structs.ConfigEntryRequestType, &structs.ConfigEntryRequest{Datacenter: "dc1", Op: structs.ConfigEntryDelete, Entry: e})
+	}
+}
+
+// scenarioMixedCase: Web2 with plain + native instances, sidecar and terminating gateway exists; clients
+// subscribe to the health and connect topics under both spellings; THEN proxies / gateways / the node change.
+func (s *sched) scenarioMixedCase() {
+	s.logf("scenario: service Web2 (mixed case) with native instance, sidecar and terminating gateway; clients on health/connect for Web2 and web2; then proxy, gateway and node changes")
+	do := func(kind int) {
+		class, desc, data := s.focusMixed(kind)
+		s.commit(class, desc, data, nil)
+	}
+	for _, k := range []int{0, 1, 2, 8, 5} {
+		do(k)
+	}
+	s.drainAll()
+	var mixed []*subject
+	for _, sj := range s.subjs {
+		if isMixedSubject(sj) {
+			mixed = append(mixed, sj)
+		}
+	}
+	for _, i := range s.rng.Perm(len(mixed)) {
+		if len(s.subs) < 6 {
+			s.newClient(mixed[i], core.Pick(s.rng, []string{"", secretA}), s.rng.Chance(30))
+		}
+	}
+	for _, k := range s.rng.Perm(8) {
+		do([]int{2, 4, 3, 7, 5, 9, 8, 4}[k])
+		if s.rng.Chance(50) {
+			s.drainOne()
+		}
+	}
+	if s.rng.Chance(50) {
+		dr := &structs.DeregisterRequest{Datacenter: "dc1", Node: core.Pick(s.rng, []string{"n1", "n2"})}
+		s.commit("focus:deregister-node", "focus:deregister-node "+core.JSON(dr), fsmEnc(structs.DeregisterRequestType, dr), nil)
 	}
 }
 
@@ -1436,8 +1551,11 @@ func runSchedule(run *core.Run, rng *core.Rand, name string, ordinal, nsteps int
 		s.drainAll()
 	}
 
-	// every 6th schedule opens with the check-relink scenario, every 6th with the partial-visibility one
+	// every 6th schedule opens with the mixed-case-service scenario, every 6th with the check-relink one, every 6th with the partial-visibility one
 	switch ordinal % 6 {
+	case 3:
+		s.scenarioMixedCase()
+		run.Count("schedules:scenario-mixed-case-service")
 	case 4:
 		s.scenarioRelink()
 		run.Count("schedules:scenario-check-relink")
@@ -1632,7 +1750,13 @@ func TestZZVerifC11(t *testing.T) {
 	run.Floor("shared-batches:partly-visible-to-the-restricted-token", nsched/6)
 	run.Floor("shared-batches:partly-visible:restricted-client-read-it-first", nsched/20)
 	run.Floor("shared-batches:partly-visible:full-client-read-it-first", nsched/20)
-	run.FloorDistinct("subject", 8)
+	run.Floor("connect-deliveries-for-mixed-case-subject", nsched/3)
+	run.Floor("connect-deliveries-for-mixed-case-subject:event", nsched/10)
+	run.Floor("connect-deliveries-for-mixed-case-subject:non-empty", nsched/6)
+	run.Floor("health-deliveries-for-mixed-case-subject", nsched/3)
+	run.Floor("proxy-or-gateway-changes-for-mixed-case-destination-with-live-connect-client", nsched/3)
+	run.FloorDistinct("mixed-case-subject-spelling", 4)
+	run.FloorDistinct("subject", 10)
 	if run.Finish() == 1 {
 		t.Fail()
 	}
